@@ -291,4 +291,4 @@ def case_strategy():
 def run(ctx):
     global CTX
     CTX = ctx
-    run_cases(ctx, case_strategy(), guarded(ctx, check_case), ctx.budget(2400, 80000))
+    run_cases(ctx, case_strategy(), guarded(ctx, check_case), ctx.budget(2400, 40000))
